@@ -1599,10 +1599,19 @@ func planC16(tier string, seed int64) (*Plan, error) {
 	p := &Plan{MustReach: []string{"done", "items", "two-items", "unreferenced"}}
 	thorough := tier == "thorough"
 	fn, fnX, all := cfg("gfm,footnote", "", ""), cfg("gfm,footnote", "", "xhtml"), cfg(allExt, "autoid,attr", "")
-	places := "peltqhfiu"
+	places := "peltqhfiuTSxmc"
 	var jobs []interp.Job
 	add := func(c, refs, defs string, ln int, alpha string) {
 		jobs = append(jobs, job("H_c16_footnotes", "cfg", c, "refs", refs, "defs", defs, "ln", ln, "alpha", alpha))
+	}
+	// configured id prefixes (constant prefix; prefix function)
+	fnP, fnF := cfg("gfm,footnoteopts", "", ""), cfg("gfm,footnotefn", "", "xhtml")
+	addP := func(c, pfx, refs, defs string) {
+		jobs = append(jobs, job("H_c16_footnotes", "cfg", c, "idprefix", pfx, "refs", refs, "defs", defs, "ln", 1, "alpha", "ab"))
+	}
+	for i, rs := range []string{"p", "pp", "pe", "ti", "fu", "hT", "ppp", "lq"} {
+		addP(fnP, "p-", rs, []string{"t", "tt", "tq"}[i%3])
+		addP(fnF, "f0-", rs, []string{"tt", "t", "tl"}[i%3])
 	}
 	for i := 0; i < len(places); i++ {
 		add(fn, string(places[i]), "t", 1, "ab1")
@@ -1653,8 +1662,9 @@ func planC16(tier string, seed int64) (*Plan, error) {
 	jobs = append(jobs, windowJobs("H_c16_footnotes", docs, seed, nwin, 1, []string{fn, all})...)
 	p.Jobs = jobs
 	p.Bounds = map[string]interface{}{
-		"T(fn)":     "1-2 references (thorough: 3) in every combination of placements {paragraph, emphasis, link text, image alt, table cell, block quote, heading, body of definition 0, body of a never-referenced definition} x 1-3 definitions at top level / in a quote / in a list item; reference and definition labels are symbolic 1-byte strings over {a,b,1} (2-byte over {a,b} and {a,^} for some), so which reference hits which definition, duplicates and misses are decided by the solver; up to 4 references of one definition",
+		"T(fn)":     "1-2 references (thorough: 3) in every combination of placements {paragraph, emphasis, link text, image alt, table body cell, surplus table cell, header cell, cell of a short row, strikethrough, code span, block quote, heading, body of definition 0, body of a never-referenced definition} x 1-3 definitions at top level / in a quote / in a list item; reference and definition labels are symbolic 1-byte strings over {a,b,1} (2-byte over {a,b} and {a,^} for some), so which reference hits which definition, duplicates and misses are decided by the solver; up to 4 references of one definition",
 		"free-form": fmt.Sprintf("every sequence of %d tokens from %q; S(2) all extensions", nt, toks),
+		"id prefix": "16 placement combinations under WithFootnoteIDPrefix (with link/back-link titles, classes and back-link HTML templates) and WithFootnoteIDPrefixFunction; the prefix is stripped from ids and fragment links before the same oracle is applied",
 		"W(C_fn,1)": fmt.Sprintf("%d seeded (document of extension/_test/footnote.txt, offset) pairs with one symbolic byte (thorough: every offset)", nwin),
 		"oracle":    "from the tokenised output: li ids are fn:1..fn:n in order; each sup id fnref[K]:j contains a link to #fn:j showing j, and item j exists; every back-link targets an existing sup id of its own item, no two the same, every sup id is targeted; all generated ids distinct; a definition whose label no reference spells leaves no trace of its body",
 		"outside":   "more references/definitions; labels longer than 2 bytes",
@@ -1703,7 +1713,7 @@ func planC20(tier string, seed int64) (*Plan, error) {
 	// (inline triggers must be punctuation or a space by the documented contract of InlineParser.Trigger)
 	itrigs := []int{'$', '=', '^', '{', '|', ';'}
 	for i, tb := range []int{0x7f, 0x80, 0xe2, 0xff, 0x01, '$'} {
-		jobs = append(jobs, job("H_c20_block", "nt", 2, "nf", 1, "order", (i+int(seed))%6, "route", i%3, "trig", tb, "doc", i%3))
+		jobs = append(jobs, job("H_c20_block", "nt", 1, "nf", 1, "order", (i+int(seed))%2, "route", i%3, "trig", tb, "doc", i%3))
 		jobs = append(jobs, job("H_c20_inline", "n", 2, "order", i%2, "route", (i+1)%3, "itrig", itrigs[i]))
 	}
 	// priorities over the whole int range (negative values, differences beyond MaxInt)
